@@ -357,7 +357,12 @@ func (fc *FnCtx) mapUpdate(x *ssa.MapUpdate, st *State, g *smt.Term, where strin
 		return
 	}
 	k := fc.term(fc.val(x.Key))
-	v := fc.term(fc.val(x.Value))
+	var v *smt.Term
+	if est, isS := mt.Elem().Underlying().(*types.Struct); isS && est.NumFields() == 0 {
+		v = smt.IntLit(0) // map[K]struct{}: a set
+	} else {
+		v = fc.term(fc.val(x.Value))
+	}
 	d := fc.readKey(st, dom, m, smt.Arr(ks, smt.Bool))
 	a := fc.readKey(st, val, m, smt.Arr(ks, vs))
 	// named, so that reads keep the shape select(array, key) that contract patterns use
